@@ -209,6 +209,40 @@ def run_shard(desc):
     rnd = common.rng(PROP, kind, si)
     wd = common.workdir(PROP)
     part = {"evaluations": 0, "classes": set(), "violations": [], "samples": [], "abstained": 0, "inconclusive": [], "counts": {"histories": 0, "tables": 0, "dispatch_steps": 0, "table_parses": 0}}
+    if kind == "racereg":
+        overrides = [
+            ({"op": "reg_fn", "name": "min", "beh": {"id": 7001, "ret": "tag"}}, "min(3, 4)", {"ok": ["l", [["n", "7001", 0], ["n", "3", 0], ["n", "4", 0]]]}),
+            ({"op": "reg_infix", "name": "+", "prec": 110, "type": "CALC", "assoc": "LEFT", "beh": {"id": 7002, "ret": "tag"}}, "1 + 2", {"ok": ["l", [["n", "7002", 0], ["n", "1", 0], ["n", "2", 0]]]}),
+            ({"op": "reg_prefix", "name": "-", "beh": {"id": 7003, "ret": "tag"}}, "- 5", {"ok": ["l", [["n", "7003", 0], ["n", "5", 0]]]}),
+            ({"op": "reg_postfix", "name": "++", "beh": {"id": 7004, "ret": "tag"}}, "5 ++", {"ok": ["l", [["n", "7004", 0], ["n", "5", 0]]]}),
+        ]
+        for h in range(n):
+            stage = (h + si) % 5
+            reg, prog, want = overrides[(h // 5 + si) % 4]
+            a_first = rnd.choice([{"op": "parse", "text": "1 + 2"}, {"op": "exec", "text": "max(1, 2)"}, {"op": "reg_fn", "name": "zz%d" % h, "beh": {"id": 1}}])
+            steps = [{"op": "init_race", "stage": stage, "a": [a_first], "bs": [[reg]], "wait_ms": 100}, {"op": "exec", "text": prog}]
+            run = common.run_vexec(steps, wd, "racereg-%d-%d" % (si, h), profile, timeout=120)
+            kind_, detail = common.crash_verdict(run, "race")
+            if kind_ is not None or not run.ended:
+                if kind_ in ("signal", "hang", "deadlock"):
+                    part["violations"].append({"sig": ["crash", kind_, "racereg"], "what": detail, "replay": {"steps": steps}})
+                else:
+                    part["inconclusive"].append("%s %s" % (kind_, detail))
+                continue
+            st = run.steps()
+            if not (st[0].get("probe_mask", 0) & (1 << stage)):
+                part["inconclusive"].append("init probe never reached stage %d" % stage)
+                continue
+            part["evaluations"] += 1
+            part["counts"]["override_during_startup"] = part["counts"].get("override_during_startup", 0) + 1
+            if st[1].get("res") == want:
+                part["classes"].add("override-during-startup:%s:stage%d" % (reg["name"], stage))
+            else:
+                part["violations"].append({"sig": ["override-during-startup-lost", reg["op"], "stage%d" % stage],
+                                           "what": "%s of built-in `%s` returned while another thread's first use was parked inside start-up at stage %d; afterwards `%s` gives %s, expected the registered handler's %s" % (reg["op"], reg["name"], stage, prog, json.dumps(st[1].get("res")), json.dumps(want)),
+                                           "replay": {"steps": steps}})
+        part["classes"] = sorted(part["classes"])
+        return part
     for h in range(n):
         if kind == "hist":
             steps, plan = history(rnd)
@@ -293,6 +327,7 @@ def run(rep, tier):
     nt = 160 if tier == "quick" else 3200
     shards = [("hist", i, nh // 32, "release" if i % 2 else "verifdbg") for i in range(32)]
     shards += [("table", i, nt // 32, "release" if i % 2 else "verifdbg") for i in range(32)]
+    shards += [("racereg", i, 10 if tier == "quick" else 100, "release" if i % 2 else "verifdbg") for i in range(4)]
     for part in common.pmap(run_shard, shards):
         rep.merge(part)
     rep.floor = 5000
